@@ -31,6 +31,15 @@ MUT = {
  "m27": ("internal/forwarder/gtp5g.go", "\toid := gtp5gnl.OID{lSeid, farid}\n\treturn gtp5gnl.UpdateFAROID", "\toid := gtp5gnl.OID{lSeid & 0xffffffff, farid}\n\treturn gtp5gnl.UpdateFAROID"),
  "m28": ("internal/forwarder/gtp5g.go", "\tif rptTrig.PERIO() {\n\t\tif measurePeriod <= 0 {", "\tif rptTrig.VOLTH() {\n\t\tif measurePeriod <= 0 {"),
  "m29": ("internal/forwarder/gtp5g.go", "\tg.ps.DelPeriodReportTimer(lSeid, v)\n", ""),
+ "m30": ("internal/pfcp/node.go", "\tdefault:\n\t\ts.log.Debugf(\"q[%d](len:%d) is full, drop it\", pdrid, len(q))", "\tdefault:\n\t\t<-q\n\t\tq <- pkt"),
+ "m31": ("internal/forwarder/gtp5g.go", "\tif far.Action&report.APPLY_ACT_BUFF == 0 {\n\t\treturn\n\t}\n", ""),
+ "m32": ("internal/pfcp/report.go", "\t\t\tif r.Action&report.APPLY_ACT_NOCP == 0 {\n\t\t\t\treturn\n\t\t\t}\n", ""),
+ "m33": ("internal/forwarder/gtp5g.go", "\t\t\t\tif q.QFI != 0 {\n\t\t\t\t\tqer = q\n\t\t\t\t\tbreak\n\t\t\t\t}", "\t\t\t\tif q.QFI != 0 {\n\t\t\t\t\tqer = q\n\t\t\t\t}"),
+ "m34": ("internal/pfcp/node.go", "\tfor _, q := range s.q {\n\t\tclose(q)\n\t}", "\tfor range s.q {\n\t}"),
+ "m35": ("internal/forwarder/perio/server.go", "\t\t\t\t\tusars[i].USARTrigger.Flags |= report.USAR_TRIG_PERIO\n", ""),
+ "m36": ("internal/forwarder/perio/server.go", "\t\t\t\t\tif len(perioGroup.urrids[e.lSeid]) == 0 {", "\t\t\t\t\tif len(perioGroup.urrids[e.lSeid]) <= 1 {"),
+ "m37": ("internal/forwarder/perio/server.go", "\t\t\t\t\t\t\tperioGroup.stopTicker()\n\t\t\t\t\t\t\tdelete(s.perioList, period)", "\t\t\t\t\t\t\tdelete(s.perioList, period)"),
+ "m38": ("internal/forwarder/buffnetlink/server.go", "\t\t\t\tUplinkVolume:   r.VolMeasurement.UplinkVolume,\n\t\t\t\tDownlinkVolume: r.VolMeasurement.DownlinkVolume,\n\t\t\t\tTotalPktNum:", "\t\t\t\tUplinkVolume:   r.VolMeasurement.DownlinkVolume,\n\t\t\t\tDownlinkVolume: r.VolMeasurement.UplinkVolume,\n\t\t\t\tTotalPktNum:"),
 }
 name = sys.argv[1]
 f, old, new = MUT[name]
